@@ -11,6 +11,7 @@ that are not defined in the repository (or whose definitions disagree) are left 
 from __future__ import annotations
 
 import ast
+import os
 
 FUNC_TYPES = (ast.FunctionDef, ast.AsyncFunctionDef)
 
@@ -580,7 +581,10 @@ def reextract_locals(func: ast.AST, ref: dict[str, list[str]]) -> list[str]:
                 for k, st in enumerate(block):
                     if not isinstance(st, (ast.Assign, ast.AugAssign, ast.Expr, ast.Return, ast.AnnAssign)):
                         continue
+                    scoped = {id(x) for c_ in ast.walk(st) if isinstance(c_, (ast.ListComp, ast.SetComp, ast.DictComp, ast.GeneratorExp, ast.Lambda)) for x in ast.walk(c_) if x is not c_}
                     for n in ast.walk(st):
+                        if id(n) in scoped:
+                            continue  # evaluated in the scope of a comprehension / lambda: cannot be hoisted out of it
                         if isinstance(n, ast.expr) and not isinstance(n, (ast.Name, ast.Constant)) and not isinstance(getattr(n, "ctx", None), (ast.Store, ast.Del)):
                             if _shape("assign", n, names)[len("assign:") :] == want:
                                 hits.append((block, k, st, n))
@@ -639,6 +643,10 @@ def canonicalise_tests(tree: ast.AST) -> int:
 
 
 
+def dotted_name(e: ast.AST) -> str | None:
+    return e.id if isinstance(e, ast.Name) else None
+
+
 def canonicalise_idioms(tree: ast.AST) -> int:
     """Small behaviour-preserving rewrites to one spelling.
 
@@ -655,6 +663,11 @@ def canonicalise_idioms(tree: ast.AST) -> int:
             if isinstance(node.func, ast.Attribute) and node.func.attr == "transpose" and not node.args and not node.keywords:
                 n += 1
                 return ast.copy_location(ast.Attribute(value=node.func.value, attr="T", ctx=ast.Load()), node)
+            # a.intersection(b) / a.union(b) / a.difference(b) -> a & b / a | b / a - b
+            if isinstance(node.func, ast.Attribute) and node.func.attr in ("intersection", "union", "difference") and len(node.args) == 1 and not node.keywords and not isinstance(node.args[0], ast.Starred):
+                n += 1
+                op = {"intersection": ast.BitAnd(), "union": ast.BitOr(), "difference": ast.Sub()}[node.func.attr]
+                return ast.copy_location(ast.BinOp(left=node.func.value, op=op, right=node.args[0]), node)
             # dict() / list() / tuple() -> {} / [] / ()
             if isinstance(node.func, ast.Name) and node.func.id in ("dict", "list", "tuple") and not node.args and not node.keywords:
                 n += 1
@@ -695,9 +708,56 @@ def canonicalise_idioms(tree: ast.AST) -> int:
                     n += 1
             return node
 
+        def _loops(self, stmts):
+            """`while x := e: B` and `x = e; while x: B; x = e` -> `while True: x = e; if not x: break; B`."""
+            nonlocal n
+            out = []
+            for st in stmts:
+                if isinstance(st, ast.While) and not st.orelse and isinstance(st.test, ast.NamedExpr):
+                    w = st.test
+                    assign = ast.copy_location(ast.Assign(targets=[ast.Name(id=w.target.id, ctx=ast.Store())], value=w.value), st)
+                    guard = ast.copy_location(ast.If(test=ast.UnaryOp(op=ast.Not(), operand=ast.Name(id=w.target.id, ctx=ast.Load())), body=[ast.copy_location(ast.Break(), st)], orelse=[]), st)
+                    st.test = ast.copy_location(ast.Constant(value=True), w)
+                    st.body = [assign, guard, *st.body]
+                    n += 1
+                elif isinstance(st, ast.While) and not st.orelse and isinstance(st.test, ast.Name) and out and isinstance(out[-1], ast.Assign) and len(out[-1].targets) == 1 and isinstance(out[-1].targets[0], ast.Name) and out[-1].targets[0].id == st.test.id and st.body and isinstance(st.body[-1], ast.Assign) and ast.dump(st.body[-1]) == ast.dump(out[-1]) and not any(isinstance(x, ast.Continue) for x in ast.walk(st)):
+                    prime = out.pop()
+                    guard = ast.copy_location(ast.If(test=ast.UnaryOp(op=ast.Not(), operand=ast.Name(id=st.test.id, ctx=ast.Load())), body=[ast.copy_location(ast.Break(), st)], orelse=[]), st)
+                    st.test = ast.copy_location(ast.Constant(value=True), st.test)
+                    st.body = [prime, guard, *st.body[:-1]]
+                    n += 1
+                # `xs = []; for t in it: [if c:] xs.append(e)` -> `xs = [e for t in it [if c]]`
+                # `d = {}; for t in it: [if c:] d[k] = v`        -> `d = {k: v for t in it [if c]}`
+                if isinstance(st, ast.For) and not st.orelse and len(st.body) == 1 and out and isinstance(out[-1], ast.Assign) and len(out[-1].targets) == 1 and isinstance(out[-1].targets[0], ast.Name) and os.environ.get("GV_CANON_LOOPS", "1") == "1":
+                    acc = out[-1].targets[0].id
+                    init = out[-1].value
+                    inner = st.body[0]
+                    cond = None
+                    if isinstance(inner, ast.If) and not inner.orelse and len(inner.body) == 1:
+                        cond, inner = inner.test, inner.body[0]
+                    new_value = None
+                    used = lambda *es: any(isinstance(x, ast.Name) and x.id == acc for e_ in es if e_ is not None for x in ast.walk(e_))  # noqa: E731
+                    if isinstance(init, ast.List) and not init.elts and isinstance(inner, ast.Expr) and isinstance(inner.value, ast.Call) and isinstance(inner.value.func, ast.Attribute) and inner.value.func.attr == "append" and isinstance(inner.value.func.value, ast.Name) and inner.value.func.value.id == acc and len(inner.value.args) == 1 and not inner.value.keywords and not used(inner.value.args[0], st.iter, cond):
+                        new_value = ast.ListComp(elt=inner.value.args[0], generators=[ast.comprehension(target=st.target, iter=st.iter, ifs=[cond] if cond is not None else [], is_async=0)])
+                    elif isinstance(init, ast.Dict) and not init.keys and isinstance(inner, ast.Assign) and len(inner.targets) == 1 and isinstance(inner.targets[0], ast.Subscript) and isinstance(inner.targets[0].value, ast.Name) and inner.targets[0].value.id == acc and not used(inner.targets[0].slice, inner.value, st.iter, cond):
+                        new_value = ast.DictComp(key=inner.targets[0].slice, value=inner.value, generators=[ast.comprehension(target=st.target, iter=st.iter, ifs=[cond] if cond is not None else [], is_async=0)])
+                    if new_value is not None and not any(isinstance(x, (ast.Break, ast.Continue, ast.Yield, ast.YieldFrom, ast.Await, ast.NamedExpr)) for x in ast.walk(st)):
+                        out[-1].value = ast.copy_location(new_value, st)
+                        ast.fix_missing_locations(out[-1])
+                        n += 1
+                        continue
+                # `x.reverse(); return x` -> `return list(reversed(x))`
+                if isinstance(st, ast.Return) and isinstance(st.value, ast.Name) and out and isinstance(out[-1], ast.Expr) and isinstance(out[-1].value, ast.Call) and isinstance(out[-1].value.func, ast.Attribute) and out[-1].value.func.attr == "reverse" and not out[-1].value.args and dotted_name(out[-1].value.func.value) == st.value.id:
+                    out.pop()
+                    st.value = ast.copy_location(ast.Call(func=ast.Name(id="list", ctx=ast.Load()), args=[ast.Call(func=ast.Name(id="reversed", ctx=ast.Load()), args=[st.value], keywords=[])], keywords=[]), st.value)
+                    n += 1
+                out.append(st)
+            return out
+
         def _body(self, stmts):
             nonlocal n
             out = []
+            stmts = self._loops(stmts)
             for st in stmts:
                 if isinstance(st, ast.If):
                     t = st.test
